@@ -177,7 +177,24 @@ def run_vcell_family(name, spec, tier, seed, cases_file, inputs_file=None):
     return r
 
 
-def lattice_pipeline(families, tier, seed, sim=None, profile="release", features=None, tag="L", trace_cells=300):
+def filter_ftrace(path, needed):
+    """Keep only the case blocks (g, emb) of a failure trace that are needed for classification."""
+    out = path + ".filtered"
+    keep = False
+    n = 0
+    with open(path) as f, open(out, "w") as g:
+        for line in f:
+            if line.startswith('{"e":"case"') or '"e":"case"' in line[:40]:
+                o = json.loads(line)
+                keep = (o["g"], o["emb"]) in needed
+                n += keep
+            if keep:
+                g.write(line)
+    return out, n
+
+
+def lattice_pipeline(families, tier, seed, sim=None, profile="release", features=None, tag="L", trace_cells=300,
+                     own_tags=None):
     """TLC(VCell) -> cases -> harness replay-cells -> VCellTrace on the sampled trace and on the
     traces of all failing runs.  Returns a LatticeRun."""
     ensure_dirs()
@@ -232,10 +249,14 @@ def lattice_pipeline(families, tier, seed, sim=None, profile="release", features
             run.verdict_examples.setdefault(v["verdict"], v)
     # --- classification of failures by the trace of the failing runs
     fverd = {}
-    if res["failures"]:
-        for v in validate_cell_trace(ftrace_file):
+    owned = [f for f in res["failures"] if own_tags is None or f["prop"] in own_tags]
+    if owned:
+        needed = {(f.get("g"), f.get("emb_index")) for f in owned}
+        ff, ncase = filter_ftrace(ftrace_file, needed)
+        log("classifying %d owned failure(s) in %d failing run(s) with VCellTrace" % (len(owned), ncase))
+        for v in validate_cell_trace(ff):
             fverd[(v["g"], v["emb"], v["cell"])] = v["verdict"]
-    for f in res["failures"]:
+    for f in owned:
         g, e = f.get("g"), f.get("emb_index")
         cell = f["detail"].get("cell") if isinstance(f.get("detail"), dict) else None
         runv = [v for (gg, ee, cc), v in fverd.items() if gg == g and ee == e]
@@ -372,7 +393,8 @@ def check_C01(tier, seed):
     out = Outcome("C01", tier, seed)
     fams = ["R3a", "P3a", "P3b", "P2a", "D2a", "D1a"] if tier == "quick" else \
         ["R3a", "R3b", "R3x", "R3y", "P3a", "P3c", "P3x", "P2a", "P2x", "P2b", "D2a", "D2x", "D1a", "D1p"]
-    run = lattice_pipeline(fams, tier, seed, sim=dict(count=60 if tier == "quick" else 800, dims=(3, 3, 2)), tag="C01")
+    run = lattice_pipeline(fams, tier, seed, sim=dict(count=40 if tier == "quick" else 800, dims=(3, 3, 2)), tag="C01",
+                           own_tags={"C01"})
     apply_lattice(out, run, {"C01"}, {"C01"})
     out.coverage["rule"] = ("every (input, cell) that TLC finished; distinct = cells compared with the region TLC computed; "
                             "non-trivial = the cell was cut by at least one neighbour")
@@ -382,7 +404,109 @@ def check_C01(tier, seed):
     return out.finish()
 
 
-CHECKS = {"C01": check_C01}
+def generic_lattice_check(prop, tier, seed, quick_fams, thorough_fams, sim_quick, sim_thorough, own_tags, verdict_props,
+                          rule, profiles=("release",), trace_cells=200):
+    out = Outcome(prop, tier, seed)
+    fams = quick_fams if tier == "quick" else thorough_fams
+    sim = sim_quick if tier == "quick" else sim_thorough
+    total_cells = 0
+    for profile in profiles:
+        run = lattice_pipeline(fams, tier, seed, sim=sim, profile=profile, tag="%s_%s" % (prop, profile),
+                               own_tags=own_tags, trace_cells=trace_cells)
+        apply_lattice(out, run, own_tags, verdict_props)
+        total_cells += run.cells_compared
+        out.coverage.setdefault("profiles", {})[profile] = run.hstats
+    out.coverage["rule"] = rule
+    out.coverage["distinct_nontrivial"] = total_cells
+    out.coverage["exhaustive"] = True
+    out.assumptions = BASE_ASSUMPTIONS
+    return out
+
+
+def check_C02(tier, seed):
+    out = generic_lattice_check(
+        "C02", tier, seed,
+        ["R3s", "P3a", "P3b", "P2a", "D2a", "D1a", "D1p"],
+        ["R3a", "R3x", "R3y", "P3a", "P3c", "P3x", "P2a", "P2x", "P2b", "D2a", "D2x", "D1a", "D1p"],
+        dict(count=40, dims=(1, 2, 3)), dict(count=600, dims=(1, 2, 3)),
+        {"C02"}, set(),
+        "every embedded lattice tessellation (1D/2D/3D, periodic and reflective, anisotropic boxes, offsets up to 1e6, "
+        "scales 1e-6..2e14): every cell measure > 0 and the sum equals the box measure; distinct = (input, embedding, cell) "
+        "triples compared, all of them non-trivial (a wrong cell changes the sum)")
+    return out.finish()
+
+
+def check_C04(tier, seed):
+    out = generic_lattice_check(
+        "C04", tier, seed,
+        ["R3s", "P3a", "P2a", "D2a", "D1a"],
+        ["R3a", "R3x", "P3a", "P3b", "P3x", "P2a", "P2x", "D2a", "D2x", "D1a", "D1p"],
+        dict(count=40, dims=(1, 2, 3)), dict(count=600, dims=(1, 2, 3)),
+        {"C04"}, set(),
+        "every face of every cell of every embedded lattice tessellation: unit normal away from the left generator "
+        "(outward through the wall for boundary faces), plane normal = spec normal, centroid on the bisector, closure and "
+        "divergence identities per cell; distinct = (input, embedding, cell) triples")
+    return out.finish()
+
+
+def check_C05(tier, seed):
+    # both build profiles: debug_assert! is part of the statement ("in debug and release builds")
+    out = generic_lattice_check(
+        "C05", tier, seed,
+        ["R3s", "P3a", "P2a", "D1a"],
+        ["R3a", "R3x", "R3y", "P3a", "P3b", "P3x", "P2a", "P2x", "D2a", "D2x", "D1a", "D1p"],
+        dict(count=40, dims=(3, 3, 2)), dict(count=600, dims=(1, 2, 3)),
+        {"C05", "C01", "C02", "C03", "C04"}, {"C05"},
+        "lattice inputs are exactly the degenerate families (points on box faces/edges/corners, collinear, coplanar, "
+        "co-spherical, exact lattices, clusters); every one must build without panic in release AND dev profile, return "
+        "finite values and pass the C01-C04 comparisons; distinct = (input, embedding, cell) triples; non-vacuity: "
+        "harness.runs_with_exact counts runs in which the exact predicate was consulted",
+        profiles=("release", "dev"))
+    return out.finish()
+
+
+def check_C06(tier, seed):
+    out = generic_lattice_check(
+        "C06", tier, seed,
+        ["P3a", "P3b", "P2a", "P2x", "D1p"],
+        ["P3a", "P3c", "P3x", "P2a", "P2x", "P2b", "D1p"],
+        dict(count=40, dims=(1, 2, 3), pers=(True,)), dict(count=600, dims=(1, 2, 3), pers=(True,)),
+        {"C06", "C01"}, set(),
+        "periodic lattice inputs incl. n = 1, 2 (self-neighbours), all dimensionalities, anisotropic periods: cells equal the "
+        "region defined with all 3^d images (TLC), equal the central block of the real non-periodic build of the replicated "
+        "set, shifts are bitwise k*width and absent iff zero, no wall faces on periodic axes, invariant under translation")
+    return out.finish()
+
+
+def check_C08(tier, seed):
+    out = generic_lattice_check(
+        "C08", tier, seed,
+        ["D2a", "P2a", "D1a", "D1p"],
+        ["D2a", "D2x", "P2a", "P2x", "P2b", "D1a", "D1p"],
+        dict(count=40, dims=(1, 2)), dict(count=500, dims=(1, 2)),
+        {"C08", "C01", "C02"}, set(),
+        "1D/2D lattice inputs: results compared with the prism/slab cell TLC computes (measures are lengths/areas), and "
+        "runs with junk (huge, negative, zero, -0.0) in the unused components of generators, anchor and width must be "
+        "bitwise equal (token) to the clean run; no face normal leaves the active subspace")
+    return out.finish()
+
+
+def check_C16(tier, seed):
+    out = generic_lattice_check(
+        "C16", tier, seed,
+        ["R3s", "P3a", "P2a", "D2a", "D1a"],
+        ["R3a", "R3x", "R3y", "P3a", "P3b", "P2a", "P2x", "D2a", "D1a", "D1p"],
+        dict(count=50, dims=(1, 2, 3)), dict(count=800, dims=(1, 2, 3)),
+        {"C16"}, {"C16"},
+        "safety radius of every replayed cell >= 2 * exact distance (active subspace) to the farthest point TLC computed "
+        "and >= distance to every neighbour with a face; every recorded termination validated by VCellTrace (a builder "
+        "that stops while a vertex is farther than half the distance to the next candidate is rejected)",
+        trace_cells=600)
+    return out.finish()
+
+
+CHECKS = {"C01": check_C01, "C02": check_C02, "C04": check_C04, "C05": check_C05, "C06": check_C06,
+          "C08": check_C08, "C16": check_C16}
 
 
 def run_check(pid, tier, seed):
